@@ -358,4 +358,4 @@ pub fn run(rep: &Report) {
     rep.floor("operand-form evaluations", rep.evals(), 100_000);
 }
 
-pub const RULE: &str = "all 5 addressing shapes x every base/index register choice x {no override, ES, CS, SS, DS} (85 shapes) x a displacement set incl. 0, +-1, 0x7FFF, -0x8000 x 11 access kinds (byte/word loads, stores of registers and immediates, read-modify-writes, LEA) from hostile register/segment states (sums crossing 0xFFFF and 0xFFFFF) with a position-dependent memory pattern and whole-memory diff, on the instruction plane (hand-rendered IR) and on the source plane (assembler syntax through the real Preprocessor, random case/radix/white space, based-indexed form with and without displacement); data-label operands at offsets 0..0xFFFF with arbitrary DS; byte-register aliasing over all 2^16 parent values. Distinct = (shape, access kind, offset-sum form, physical wrap, accept-set member). Whole programs with data labels defined under repeated / interleaved `set` directives, every label read, written and read back through the binary; operands aimed at the last bytes of memory.";
+pub const RULE: &str = "all 5 addressing shapes x every base/index register choice x {no override, ES, CS, SS, DS} (85 shapes) x a displacement set incl. 0, +-1, 0x7FFF, -0x8000 x 11 access kinds (byte/word loads, stores of registers and immediates, read-modify-writes, LEA) from hostile register/segment states (sums crossing 0xFFFF and 0xFFFFF) with a position-dependent memory pattern and whole-memory diff, on the instruction plane (hand-rendered IR) and on the source plane (assembler syntax through the real Preprocessor, random case/radix/white space, based-indexed form with and without displacement); data-label operands at offsets 0..0xFFFF with arbitrary DS; byte-register aliasing over all 2^16 parent values. Distinct = (shape, access kind, offset-sum form, physical wrap, accept-set member). Whole programs with data labels defined under repeated / interleaved `set` directives, every label read, written and read back through the binary; operands aimed at the last bytes of memory. The end-of-memory plane also draws from every production with a memory operand (incl. segment-register MOV, PUSH/POP of memory); in the seeded source slice every second memory operand is passed as a macro argument.";
